@@ -68,6 +68,7 @@ abbrev cBaseExceptionGroup : Nat := 10
 abbrev cTypeError : Nat := 11
 abbrev cKeyError : Nat := 12
 abbrev cValueError : Nat := 13
+abbrev cTimeoutError : Nat := 14
 abbrev cUserError : Nat := 20         -- "some subclass of Exception raised by user code"
 abbrev cUserBase : Nat := 21          -- "some BaseException that is not an Exception, not a cancellation"
 
